@@ -30,7 +30,7 @@ BUCKETS = ['pipe_open', 'pipe_closed', 'cv_open', 'cv_closed', 'headpump1_open',
 _QF = {'pipe_open': 2000, 'pipe_closed': 300, 'cv_open': 400, 'cv_closed': 200, 'headpump1_open': 90, 'headpump2_open': 90,
        'headpump3_open': 90, 'headpump_closed': 10, 'powerpump_open': 60, 'PRV_active': 20, 'PRV_open': 15, 'PRV_closed': 40,
        'PSV_active': 3, 'PSV_open': 40, 'PSV_closed': 15, 'FCV_active': 15, 'FCV_open': 60, 'FCV_closed': 5, 'TCV_active': 70,
-       'TCV_open': 20, 'TCV_closed': 10, 'link_steps': 4000, 'sweep_points': 20000}
+       'TCV_open': 20, 'TCV_closed': 10, 'link_steps': 4000, 'sweep_points': 20000, 'recalibrated_runs': 8}
 FLOORS = {'quick': {'conclusive': 100, 'distinct_nontrivial': 50, 'counters': _QF},
           'thorough': {'conclusive': 1400, 'distinct_nontrivial': 600, 'counters': {k: 10 * v for k, v in _QF.items()}}}
 CASE_TIMEOUT = {'quick': 120, 'thorough': 300}
@@ -112,6 +112,25 @@ def run_case(c, rng):
         c.set_sig(gnet.signature(spec), hw)
         return
     buckets = check_links(c, wn, tr.results, hw, sample)
+    # history: re-calibrate a pump curve in place (public setter), reset, run again - the law must follow the new points
+    heads = [p for p in spec['pumps'] if p['type'] == 'HEAD']
+    if heads and rng.random() < 0.6:
+        pu = rng.choice(heads)
+        cur = wn.get_curve(pu['curve'])
+        old_pts = list(cur.points)
+        f = rng.choice([0.85, 0.9, 1.1, 1.2])
+        if rng.random() < 0.5 or len(old_pts) == 2:
+            new_pts = [(q, h * f) for q, h in old_pts]
+        else:   # change the number of points too
+            q, h = old_pts[-1] if len(old_pts) == 1 else old_pts[1]
+            new_pts = [(q, h * f)] if len(old_pts) > 1 else [(0.0, 1.33 * h * f), (q, h * f), (2 * q, 0.0)]
+        cur.points = new_pts
+        wn.reset_initial_values()
+        sample2 = dict(sample, recalibrated={'curve': pu['curve'], 'old': old_pts, 'new': new_pts})
+        tr2 = simobs.run_wntr(wn, deep=False, HW_approx=hw)
+        if simobs.converged(tr2):
+            c.count('recalibrated_runs')
+            buckets |= check_links(c, wn, tr2.results, hw, sample2)
     c.set_sig(gnet.signature(spec), hw, ','.join(sorted(buckets)))
     c.nontrivial = bool(spec['pumps'] or spec['valves'] or any(p['cv'] or p['minor_loss'] for p in spec['pipes']))
 
